@@ -459,7 +459,7 @@ func (w *World) call(t *Thread, caller *frame, fn *ssa.Function, args []Value, e
 	}
 	name := fn.String()
 	if fn.Parent() == nil {
-		if in := lookupIntrinsic(fn, name); in != nil {
+		if in := lookupIntrinsic(fn, name); in != nil && w.skipIntrinsic != fn {
 			if w.res != nil {
 				w.res.Models[name] = true
 			}
